@@ -499,12 +499,23 @@ pub fn native_subjects(prop: &str) -> Vec<Subject> {
             }
         }
         v.push(with_samples(
-            s11("FftStream", format!("size={size}"), size, data, vec![], native_starts(CC, CC), 1, move |r| {
+            s11("FftStream", format!("size={size}"), size, data.clone(), vec![], native_starts(CC, CC), 1, move |r| {
                 let (b, o) = FftStream::new(r, size);
                 (bx(b), o)
             }),
             cb(&want),
         ));
+        if size == 4 {
+            // The optional thread-pool mode computes the same thing.
+            v.push(with_samples(
+                s11("FftStream", format!("size={size} threaded"), size, data, vec![], native_starts(CC, CC), 1, move |r| {
+                    let (mut b, o) = FftStream::new(r, size);
+                    b.threaded(true);
+                    (bx(b), o)
+                }),
+                cb(&want),
+            ));
+        }
     }
     // Clock recovery.
     {
